@@ -10,7 +10,7 @@
 import sys, os, json, subprocess, tempfile, shutil, time
 
 VERIF = os.path.dirname(os.path.dirname(os.path.abspath(__file__)))
-REPO = "/repo"
+REPO = os.environ.get("VERIF_REPO", "/repo")
 
 
 def sh(cmd, **kw):
